@@ -115,8 +115,9 @@ def main():
     print(json.dumps(res, indent=1)[:1500])
     if res.get("confirmed"):
         dst = os.path.join(ROOT, "seeded", name)
-        shutil.rmtree(dst, ignore_errors=True)
-        shutil.copytree(d, dst)
+        if os.path.realpath(dst) != os.path.realpath(d):
+            shutil.rmtree(dst, ignore_errors=True)
+            shutil.copytree(d, dst)
         meta = json.load(open(os.path.join(dst, "meta.json")))
         meta["confirmed_by"] = "tools/verify_seed.py: demo passes on clean tree, fails with patch, 44 baseline tests pass with patch"
         json.dump(meta, open(os.path.join(dst, "meta.json"), "w"), indent=1)
